@@ -125,13 +125,17 @@ def diag_and_sub(t, out):
     ret = r"Indexnew_dim=std::min\(([^,;]+),([^;]+?)\);returnArray<1,Type,IsActive>\(([^,;]+),storage_,ExpressionSize<1>\(new_dim\),ExpressionSize<1>\(([^;]+?)\)\);"
     m = re.fullmatch(r"\{ADEPT_STATIC_ASSERT\(Rank==2,[A-Z_]+\);if\(empty\(\)\)\{returnArray<1,Type,IsActive>\(\);\}"
                      r"elseif\(dimensions_\[0\]!=dimensions_\[1\]\)\{throwinvalid_operation\([^;]*\);\}"
-                     r"elseif\(offdiag>=0\)\{" + ret + r"\}else\{" + ret + r"\}\}", b)
+                     r"elseif\(([^(){};]+)\)\{" + ret + r"\}else\{" + ret + r"\}\}", b)
     if not m:
         die("diag_vector: form not recognised: " + b[:500])
     args = ["b0", "d0", "d1", "s0", "s1", "k"]
     out.append("")
     out.append("(* diag_vector(offdiag): the branch offdiag >= 0, then the other one *)")
-    for pre, g in (("dgp", m.groups()[0:4]), ("dgn", m.groups()[4:8])):
+    c = re.fullmatch(r"(.+?)(>=|<=|==|>|<)(.+)", m.group(1))
+    if not c:
+        die("diag_vector: branch condition '%s' is not a comparison" % m.group(1))
+    out.append("Definition dg_first_branch (k : Z) : bool := (%s %s %s)." % (marith(c.group(1), w), {">=": ">=?", "<=": "<=?", "==": "=?", ">": ">?", "<": "<?"}[c.group(2)], marith(c.group(3), w)))
+    for pre, g in (("dgp", m.groups()[1:5]), ("dgn", m.groups()[5:9])):
         emit(pre + "_dim", args, "(Z.min %s %s)" % (marith(g[0], w), marith(g[1], w)))
         emit(pre + "_base", args, marith(g[2], w))
         emit(pre + "_stride", args, marith(g[3], w))
